@@ -11,6 +11,10 @@ hook_commit = sh("git -C /repo log --format=%H --grep='^verif:' | tail -1")
 CHECKS = {
  "C01": ("exploration", "runtime monitoring: generated header histories vs executable reference model of the accepted-header tree, after every operation; race detector on concurrent submitters",
          "Reported tip/ancestry compared with a reference tree after every op of thousands of seeded histories (all fork shapes, Clean/Save/Load interleaved, arrival-order permutations, concurrent submitters under -race). Held on the histories explored, not a proof.", "3/C01"),
+ "C02": ("exploration", "runtime monitoring: crash boundary + differential against a reference compact-bits decoder and a reference cw-144 difficulty algorithm; real-chain replay with single-field mutants",
+         "All 256 exponent bytes x mantissa classes x placements through ProcessHeader; Branch.Target vs reference on thousands of synthetic chains with hostile timestamps; both real-chain fixtures replayed with difficulty enabled and mutated.", "3/C02"),
+ "C03": ("exploration", "runtime monitoring: verdict table at the split height on the real chain and on forks below it; scripted peer replies to the verification request over loopback",
+         "Real chain to 556766, then thousands of offers at 556767 (BSV, BCH, generated) on main chain and forks; VerifyHeader table; peer side: verified iff first header is the BSV split header.", "3/C03"),
  "C07": ("exploration", "runtime monitoring: stream applier + set-difference oracle on the subscriber channels after every submission",
          "Announcements of every submission compared with best-chain-after minus best-chain-before for 0-3 subscribers over seeded histories with every reorg kind.", "3/C07"),
  "C08": ("exploration", "runtime monitoring: set-valued reference verdict per submission and full read-API snapshot diff around every refusal",
